@@ -61,6 +61,11 @@ def _euc(c):
         except Exception:
             pass
     o["d3b"] = enc.arr(g.euclidean_distance(), 1000)
+    # nearest-node lookup at integer query points (squared distances are exact)
+    dim = pts.shape[1]
+    qs = [[int(pts[k % len(pts)][j]) + ((k + j) % 3) - 1 for j in range(dim)] for k in range(min(6, 2 * len(pts)))]
+    o["queries"] = qs
+    o["nearest"] = [int(g.node_number(tuple(float(v) for v in q))) for q in qs]
     return o
 
 
